@@ -230,19 +230,20 @@ def r4(ctx, rep):
         raise AnalysisError('DequeCache.__setitem__ not found in lex.py')
     rep.consult(m.loc(LEX, fn) + ' DequeCache.__setitem__')
     it = Interp({}, where='lang/lex.py DequeCache.__setitem__')
+    cache_fns = {qn.rsplit('.', 1)[1]: f for qn, f in fns.items() if qn.startswith('metacall.<locals>.DequeCache.')}
     values = ('A', 'B', 'C')
     keys = {v: [('k1', v), ('k2', v)] for v in values}
     n = 0
     probs = collections.OrderedDict()
     for maxlen in ((0, 1, 2, 3) if rep.tier == 'thorough' else (0, 1, 2)):
         def fresh():
-            return Obj('cache', queue=collections.deque(maxlen=maxlen), idx={}, rev={})
+            return Obj('cache', __srcfuncs__=cache_fns, queue=collections.deque(maxlen=maxlen), idx={}, rev={})
 
         def snapshot(c):
             return (tuple(c.queue), tuple(sorted((repr(k), v) for k, v in c.idx.items())), tuple(sorted((v, tuple(sorted(map(repr, ks)))) for v, ks in c.rev.items())))
 
         def clone(c):
-            d = Obj('cache', queue=collections.deque(c.queue, maxlen=maxlen), idx=dict(c.idx), rev={v: set(ks) for v, ks in c.rev.items()})
+            d = Obj('cache', __srcfuncs__=cache_fns, queue=collections.deque(c.queue, maxlen=maxlen), idx=dict(c.idx), rev={v: set(ks) for v, ks in c.rev.items()})
             return d
         frontier = [fresh()]
         seen = {snapshot(frontier[0])}
